@@ -125,7 +125,7 @@ fn do_read<'db>(db: &'db VDb, op: &Op, n: usize, held: &mut Vec<&'db Val>) {
             match r {
                 Ok(v) => {
                     ev!("e": "ret", "ok": 1, "kind": "", "msg": "", "v": v.v, "s": v.serial,
-                        "hs": v.hs.iter().map(|i| idstr(*i)).collect::<Vec<_>>(), "acc": Vec::<i64>::new());
+                        "hs": v.hs.iter().map(|i| idstr(*i)).collect::<Vec<_>>(), "acc": Vec::<i64>::new(), "ni": v.is.len());
                     held.push(v);
                 }
                 Err(p) => end_panic(p),
